@@ -310,9 +310,15 @@ def run(ctx):
     # ------------------------------------------------------------------ R7
     r7 = Rule("C01", "C01.R7", "text sinks are total over the XML Char production", floor=3,
               necessary="a character outside Char (C0 controls) in any cell yields a document no XML parser accepts")
-    subs = ctx.consts.get("pyxform.utils", "XML_TEXT_SUBS", "C01.R7")
+    from .c06 import escaper_failures
+    esc_fn, samples, bad = escaper_failures(ctx, "C01.R7")
+    r7.check(not bad, "text escaper[adversarial alphabet]", f"{len(samples)} strings over {{& < > ; # a}} and entity / CDATA-end / comment-like sequences: the text written is well-formed character data "
+             "(every & < > escaped, so `]]>` and entity-like input cannot break the document)", esc_fn.loc(), why_fail="; ".join(f"{a!r} -> {b!r}" for a, b, c in bad[:3]))
+    subs = ctx.consts.try_get("pyxform.utils", "XML_TEXT_SUBS") or {}
+    if not isinstance(subs, dict):
+        subs = {}
     for ch in "&<":
-        r7.check(ch in subs and subs[ch].startswith("&") and subs[ch].endswith(";"), f"XML_TEXT_SUBS[{ch!r}]", "markup-significant character is replaced by an entity", "pyxform/utils.py")
+        r7.check(not any(b[0] == ch for b in bad), f"text escaper[{ch!r}]", "markup-significant character is replaced by an entity", esc_fn.loc())
     handles_c0 = any(isinstance(k, str) and len(k) == 1 and ord(k) < 0x20 and k not in "\t\n\r" for k in subs)
     if not handles_c0:
         for modname in ("pyxform.xls2json", "pyxform.xls2json_backends", "pyxform.utils", "pyxform.parsing.sheet_headers"):
@@ -327,7 +333,31 @@ def run(ctx):
     r7.check(handles_c0, "cells->text sinks:C0 controls", "C0 control characters (other than TAB/LF/CR) are escaped, stripped or rejected before reaching a text or attribute sink",
              "pyxform/utils.py", why_fail="no escaper entry and no validator pattern covers U+0000-U+001F")
     rules.append(r7)
+    rules.append(name_validator_rule(ctx, "C01", "C01.R8"))
     return rules
+
+
+def name_validator_rule(ctx, prop, rid):
+    """The XML-name validator (is_xml_tag -> RE_ONLY_NCNAME) accepts nothing that is not an XML NCName[:NCName]:
+    decided on the syntax tree of the folded pattern against productions [4]/[4a] of XML 1.0 (fifth edition)."""
+    from .. import regexlang as R
+    r = Rule(prop, rid, "the name validator accepts only XML names", floor=3,
+             necessary="a name accepted by the validator is written as an element name; a character outside NameChar makes the document ill-formed")
+    rx = ctx.consts.get("pyxform.parsing.expression", "RE_ONLY_NCNAME", rid)
+    pat = getattr(rx, "pattern", None)
+    if not isinstance(pat, str):
+        raise AnalysisError(rid, "RE_ONLY_NCNAME did not fold to a pattern")
+    loc = "pyxform/parsing/expression.py"
+    r.check(pat.startswith("^") and pat.endswith("$"), "RE_ONLY_NCNAME:anchors", "the pattern is anchored at both ends (whole-string match)", loc)
+    bad_any = R.subtract(R.universe(pat), R.NCNAME_CHAR + [(0x3A, 0x3A)])
+    r.check(not bad_any, "RE_ONLY_NCNAME:characters", "every character the pattern can match is an XML NameChar (or the single prefix colon)", loc,
+            why_fail=f"also matches {R.fmt(bad_any)}")
+    bad_first = R.subtract(R.first_set(pat), R.NCNAME_START)
+    r.check(not bad_first, "RE_ONLY_NCNAME:first character", "every possible first character is an XML NameStartChar", loc, why_fail=f"also starts with {R.fmt(bad_first)}")
+    ixt = ctx.func("pyxform.parsing.expression:is_xml_tag", rid)
+    uses = [n for n in ast.walk(ixt.node) if isinstance(n, ast.Name) and n.id == "RE_ONLY_NCNAME"]
+    r.check(bool(uses), "is_xml_tag:pattern", "is_xml_tag decides with that pattern", ixt.loc())
+    return r
 
 
 def _dead_site(prov, site) -> bool:
@@ -381,13 +411,17 @@ def _range_params_validated(ctx) -> bool:
 
 
 def _entities_guard(ctx) -> bool:
-    """get_nsmap adds the entities prefix under `self.entity_features`."""
-    fn = ctx.func("pyxform.survey:Survey.get_nsmap", "C01.R1")
-    for x in walk_own(fn.node):
-        if isinstance(x, ast.Assign) and isinstance(x.value, ast.Constant) and isinstance(x.value.value, str) \
-                and "entities=" in x.value.value:
-            return guard_texts(x, stop=fn.node) == ["self.entity_features"]
-    return False
+    """get_nsmap declares the entities prefix whenever `entity_features` is set — for every author-supplied
+    `namespaces` setting of the evaluation table (including prefixes that merely end in "entities") and on repeated
+    generation; and never otherwise."""
+    from .c19 import nsmap_table
+    for desc, feats, ns, res in nsmap_table(ctx, "C01.R1"):
+        has = isinstance(res, dict) and res.get("xmlns:entities") == "http://www.opendatakit.org/xforms/entities"
+        if feats and not has:
+            return False
+        if not feats and isinstance(res, dict) and "xmlns:entities" in res:
+            return False
+    return True
 
 
 def _balanced(events, shape, n_attrs):
